@@ -712,3 +712,40 @@ pub fn migration_round(starts: &[GameState], chain_len: usize, seed: u64) -> (us
     }
     (bad, cmp)
 }
+
+
+/// Simultaneous children: every thread takes a DIFFERENT offered action of the same root at the same
+/// instant (spin gate right before `take_action`); afterwards each child is compared (deep fingerprint:
+/// the whole history) with the child computed sequentially. The root must not have had any successor
+/// before. Returns (mismatches, children compared).
+pub fn simultaneous_children(root: &GameState, n: usize) -> (usize, usize) {
+    let acts = root.valid_actions();
+    if acts.is_empty() {
+        return (0, 0);
+    }
+    let gate = std::sync::atomic::AtomicUsize::new(0);
+    let got: Vec<(Action, u64)> = std::thread::scope(|sc| {
+        let hs: Vec<_> = (0..n)
+            .map(|i| {
+                let a = acts[i % acts.len()];
+                let gate = &gate;
+                sc.spawn(move || {
+                    gate.fetch_add(1, std::sync::atomic::Ordering::AcqRel);
+                    while gate.load(std::sync::atomic::Ordering::Acquire) < n {
+                        std::hint::spin_loop();
+                    }
+                    let child = root.take_action(&a);
+                    (a, fingerprint(&child, true))
+                })
+            })
+            .collect();
+        hs.into_iter().map(|h| h.join().unwrap()).collect()
+    });
+    let mut bad = 0;
+    for (a, fp) in &got {
+        if fingerprint(&root.take_action(a), true) != *fp {
+            bad += 1;
+        }
+    }
+    (bad, got.len())
+}
